@@ -41,6 +41,7 @@ class Client:
         self.r = rnd
         self.ev = []
         self.w = weights
+        self.only = None
 
     def rx(self, f):
         f = (list(f) + [0] * 8)[:8]
@@ -55,6 +56,8 @@ class Client:
             i, s = r.choice(MISSING)
             return None, [i & 255, i >> 8, s]
         c = [o for o in TDICT if pred is None or pred(o)] if r.random() < 0.85 else TDICT
+        if self.only:
+            c = [o for o in c if self.only(o)] or [o for o in TDICT if self.only(o)]
         o = r.choice(c)
         return o, [o["idx"] & 255, o["idx"] >> 8, o["sub"]]
 
@@ -235,9 +238,9 @@ class Client:
             if o is not None and r.random() < 0.7:
                 self.dump(o)
             if r.random() < 0.2:
-                self.dump(r.choice(TDICT))
+                self.dump(r.choice([o for o in TDICT if not self.only or self.only(o)]))
         for o in TDICT:
-            if o["w"] and r.random() < 0.5:
+            if o["w"] and r.random() < 0.5 and (not self.only or self.only(o)):
                 self.dump(o)
         return self.ev
 
@@ -251,21 +254,46 @@ PROFILES = {
 }
 
 
-def dict_line():
-    return json.dumps(dict(e="cfg", dict=[[o["idx"], o["sub"], int(o["r"]), int(o["w"]), o["kind"], o["data"], o["abort"]] for o in TDICT]))
+def dict_line(nsrv=1):
+    return json.dumps(dict(e="cfg", nsrv=nsrv, dict=[[o["idx"], o["sub"], int(o["r"]), int(o["w"]), o["kind"], o["data"], o["abort"]] for o in TDICT]))
 
 
-def run(ctx, nbeh, ndlg=8, nfiles=16, profile=None):
-    """record nbeh behaviours of the real server and validate them with TLC"""
+SRV_RX = {1: RX, 2: 0x610}
+SRV_TX = {1: 0x580 + NODE, 2: 0x590}
+
+
+def run(ctx, nbeh, ndlg=8, nfiles=16, profile=None, nsrv=1):
+    """record nbeh behaviours of the real server(s) and validate them with TLC.  nsrv = 2: a CO_SSDO_N = 2 build, one PRNG
+    client per server, their frames interleaved at random; the clients work on disjoint halves of the dictionary (two
+    transfers to the same object at the same time share the object's own transfer position - a domain has one offset -
+    which is a conflict between the clients and not what C02's independence clause is about)"""
     prof = PROFILES[profile or ctx.pid]
     behs = []
     for k in range(nbeh):
-        rnd = random.Random(ctx.seed * 1000003 + k * 7919 + hash(ctx.pid) % 1000 if False else ctx.seed * 1000003 + k * 7919 + int(ctx.pid[1:]))
-        ev = Client(rnd, prof).behaviour(ndlg)
+        rnd = random.Random(ctx.seed * 1000003 + k * 7919 + int(ctx.pid[1:]) + 31 * nsrv)
+        if nsrv == 1:
+            ev = Client(rnd, prof).behaviour(ndlg)
+        else:
+            cl = [Client(rnd, prof), Client(rnd, prof)]
+            if True:      # concurrent transfers to the SAME object share the object's transfer position: a client-side conflict, not the servers'
+                cl[0].only = lambda o: TDICT.index(o) % 2 == 0
+                cl[1].only = lambda o: TDICT.index(o) % 2 == 1
+            evs = [cl[0].behaviour(ndlg // 2 + 1), cl[1].behaviour(ndlg // 2 + 1)]
+            for e in evs[1]:
+                if e[0] == "rx":
+                    e[1] = SRV_RX[2]
+            ev = []
+            while evs[0] or evs[1]:
+                w = 0 if (evs[0] and (not evs[1] or rnd.random() < 0.5)) else 1
+                # keep runs of frames together now and then (a whole sub-block without interruption)
+                for _ in range(rnd.choice([1, 1, 1, 2, 5, 30])):
+                    if evs[w]:
+                        ev.append(evs[w].pop(0))
         behs.append(Beh(dict(n=NODE, trace=k), [dict(e=e, x=[]) for e in ev], 0))
-    base = sdo_common.make_preamble(TDICT)
+    base = sdo_common.make_preamble(TDICT, nsrv=nsrv)
     pre = lambda cfg: base(cfg) + ["testabort 49 0 9 6"]       # application abort code of the "app" object (0609 0031h)
-    exe = ctx.exe("default", ())
+    variant = "default" if nsrv == 1 else "n2"
+    exe = ctx.exe(variant, () if nsrv == 1 else ("CO_SSDO_N=2",))
     results = vlib.replay(exe, behs, pre, ctx.pid + "_sdotrace")
     tdir = os.path.join(vlib.OUT, "traces", ctx.pid)
     os.makedirs(tdir, exist_ok=True)
@@ -278,22 +306,23 @@ def run(ctx, nbeh, ndlg=8, nfiles=16, profile=None):
         fn = os.path.join(tdir, "sdo_%d.ndjson" % fi)
         linemap = []                # trace line number (1-based) -> (behaviour, step)
         with open(fn, "w") as f:
-            f.write(dict_line() + "\n")
+            f.write(dict_line(nsrv) + "\n")
             linemap.append(None)
             for bi in idxs:
                 status, steps = results[bi]
                 b = behs[bi]
                 if status != "ok":
                     m = vlib.Mismatch(bi, len(steps), "crash:" + status, [], [["died"]], b.steps[min(len(steps), len(b.steps) - 1)]["e"])
-                    ctx.violations.append((m, b, pre, "default", "sdo_trace"))
+                    ctx.violations.append((m, b, pre, variant, "sdo_trace"))
                     continue
                 f.write('{"e":"reset"}\n')
                 linemap.append((bi, -1))
                 for si, (st, obs) in enumerate(zip(b.steps, steps)):
                     e = st["e"]
                     if e[0] == "rx":
-                        rec = dict(e="rx", f=e[3:11], tx=[it[3:11] for it in obs if it[0] == "tx" and it[1] == 0x580 + NODE],
-                                   other=[it for it in obs if it[0] == "tx" and it[1] != 0x580 + NODE],
+                        srv = 2 if e[1] == SRV_RX[2] else 1
+                        rec = dict(e="rx", srv=srv, f=e[3:11], tx=[it[3:11] for it in obs if it[0] == "tx" and it[1] == SRV_TX[srv]],
+                                   other=[it for it in obs if it[0] == "tx" and it[1] != SRV_TX[srv]],
                                    chg=[[it[1], it[2]] for it in obs if it[0] == "chg"], app=sum(1 for it in obs if it[0] == "cb" and it[1] == "canrx"))
                         if rec["other"]:
                             rec["app"] += 100       # a frame on a foreign identifier: rejected as well
@@ -339,10 +368,10 @@ def run(ctx, nbeh, ndlg=8, nfiles=16, profile=None):
         obs = steps[si] if 0 <= si < len(steps) else []
         exp = rej["exp"]
         m = vlib.Mismatch(bi, max(si, 0), "trace-rejected", [["model", json.dumps(exp)[:400]]], obs, b.steps[max(si, 0)]["e"])
-        ctx.violations.append((m, b, pre, "default", "sdo_trace"))
+        ctx.violations.append((m, b, pre, variant, "sdo_trace"))
     ctx.traces_validated += nbeh
     ctx.steps += nev
-    ctx.mc_runs.append(dict(mode="trace-validation", module="CoSsdoTrace", traces=len(res), behaviours=nbeh, events=nev, determined_requests_compared=ndet))
+    ctx.mc_runs.append(dict(mode="trace-validation", module="CoSsdoTrace", servers=nsrv, traces=len(res), behaviours=nbeh, events=nev, determined_requests_compared=ndet))
     ctx.extra["recorded_trace_events"] = ctx.extra.get("recorded_trace_events", 0) + nev
     ctx.extra["recorded_requests_with_determined_response"] = ctx.extra.get("recorded_requests_with_determined_response", 0) + ndet
     if nacc and ndet < nacc // 4:
